@@ -59,6 +59,7 @@ func RunW1(p *Profile, plan, sched *simrt.Source, trace bool) *RunOut {
 		}
 	}
 	sc := &Scenario{Universe: universe}
+	sc.NoDel = g.Pct(30)
 	sc.Index()
 	state := modelOf(rules)
 	ver := 1
